@@ -72,6 +72,12 @@ func sortOfDeclType(t string) string {
 		return SIface
 	case "ref":
 		return SInt
+	case "intmap_string":
+		return ArraySort(SInt, SString)
+	case "intmap_bool":
+		return ArraySort(SInt, SBool)
+	case "intmap_int":
+		return ArraySort(SInt, SInt)
 	}
 	return t
 }
@@ -292,7 +298,12 @@ func (e *Env) indexVal(x, i CVal) (CVal, error) {
 		if mt, ok := x.Ty.Underlying().(*types.Map); ok {
 			dom, val := fg.mapVars(mt, e.st)
 			in := And(Neq(x.T, IntLit(0)), Select(Select(dom, x.T), i.T))
-			return CVal{T: Ite(in, Select(Select(val, x.T), i.T), fg.g.ti.zeroOf(mt.Elem())), Ty: mt.Elem()}, nil
+			r := Ite(in, Select(Select(val, x.T), i.T), fg.g.ti.zeroOf(mt.Elem()))
+			if _, isSlice := mt.Elem().Underlying().(*types.Slice); isSlice && !hasBound(r) && !fg.noDefs {
+				// a slice stored in a map is a well-formed slice header
+				fg.assumeValid(r, mt.Elem(), True)
+			}
+			return CVal{T: r, Ty: mt.Elem()}, nil
 		}
 	}
 	return CVal{}, fmt.Errorf("cannot index value of sort %s", x.T.Sort)
@@ -584,6 +595,44 @@ func (e *Env) call(ce *CE) (CVal, error) {
 	S := types.Typ[types.String]
 	I := types.Typ[types.Int]
 	switch name {
+	case "ufString":
+		// ufString("field:mapper", f, args...): the string result of a call on the effects list as `function`, as a term
+		if len(args) < 2 || args[0].Kind != "str" {
+			return CVal{}, fmt.Errorf("ufString needs a literal callee name and the callee value")
+		}
+		var ts []*Term
+		for _, a := range args[1:] {
+			v, err := e.eval(a)
+			if err != nil {
+				return CVal{}, err
+			}
+			if v.IsNil {
+				v.T = IntLit(0)
+			}
+			if v.T == nil {
+				return CVal{}, fmt.Errorf("bad ufString argument %s", a)
+			}
+			ts = append(ts, v.T)
+		}
+		return CVal{T: App("uf:"+sanitize(args[0].Str)+"#0", SString, ts...), Ty: types.Typ[types.String]}, nil
+	case "upd":
+		// upd(a, i, v): the ghost array a with index i set to v
+		a, err := e.eval(args[0])
+		if err != nil {
+			return CVal{}, err
+		}
+		i, err := e.eval(args[1])
+		if err != nil {
+			return CVal{}, err
+		}
+		v, err := e.eval(args[2])
+		if err != nil {
+			return CVal{}, err
+		}
+		if a.T == nil || i.T == nil || v.T == nil || !strings.HasPrefix(a.T.Sort, "(Array ") {
+			return CVal{}, fmt.Errorf("upd needs a ghost array")
+		}
+		return CVal{T: Store(a.T, i.T, v.T)}, nil
 	case "pre":
 		// in an "after call" rule: the value of the expression in the state just before the call
 		if fg.preCallState == nil {
